@@ -206,6 +206,30 @@ def run(tier: str, seed: int) -> int:
             run_.case((sess, "stiff", s["id"]))
             if not (s["finite"] and s["zero_finite"] and s["coef_finite"]) or s["result_dtype"] != want_default:
                 run_.violation(key, s)
+    # 2b. one process, precision mode switched between two constructions on the same grids (both orders): what a stepper carries follows
+    #     the mode that is active when it is built
+    for first in (False, True):
+        outp = os.path.join(work, f"switch_{int(first)}.json")
+        env = dict(os.environ, VERIF_C19_FIRST="1" if first else "0", VERIF_C19_OUT=outp)
+        env.pop("JAX_ENABLE_X64", None)
+        pr = subprocess.run([sys.executable, "-m", "harness.checks.c19_switch"], env=env, capture_output=True, text=True, timeout=1800)
+        if pr.returncode != 0:
+            raise RuntimeError("mode-switch child failed:\n" + pr.stdout[-1500:] + pr.stderr[-1500:])
+        sw = json.load(open(outp))
+        for ph in sw["phases"]:
+            x64 = ph["x64"]
+            eps = 2.220446049250313e-16 if x64 else 1.1920929e-07
+            for rec in ph["cases"]:
+                run_.case(("switch", first, x64, rec["name"]))
+                key = {"kind": "mode-switch", "cls": rec["name"], "order": rec["order"], "session": ("x64" if x64 else "default") + (" (built second)" if x64 != first else " (built first)")}
+                if "error" in rec:
+                    run_.violation(dict(key, what="raised"), rec)
+                    continue
+                bad = set(rec["leaf_dtypes"]) & ({"float32", "complex64"} if x64 else {"float64", "complex128"})
+                if rec["result_dtype"] != ("float64" if x64 else "float32") or not rec["finite"] or bad:
+                    run_.violation(dict(key, what="dtype of the result / of the arrays carried by the stepper"), rec)
+                if "semigroup_rel" in rec and not rec["semigroup_rel"] <= 2000 * eps:
+                    run_.violation(dict(key, what="two half steps != one step at the active precision"), rec)
     # 3. single vs double: the same step in the two sessions
     a32, a64 = outs[False][1], outs[True][1]
     worst = {}
